@@ -130,9 +130,17 @@ class Report:
             self.stats[k] = self.stats.get(k, 0) + v
 
     # -- finishing --------------------------------------------------------
+    # rules that identify nothing by a local's, parameter's or member's name: what they report stands even when another rule's
+    # name anchor has gone (the other rules' reports are dropped in that case -- they may have misread the code)
+    NAME_FREE = {"R2-amounts", "K10-encap", "W8-borrow", "DOUBLE-FREE", "REALLOC-nonzero", "LEAK", "NULLCHK", "REPORTED", "J6-eof"}
+
     def finish(self):
         if getattr(self, "deferred", None) and (not self.viol or getattr(self, "renamed", 0)):
-            raise cdb.AnalysisBroken("; ".join(self.deferred))
+            keep = [v for v in self.viol if v["rule"] in self.NAME_FREE]
+            if not keep:
+                raise cdb.AnalysisBroken("; ".join(self.deferred))
+            self.notes.append("not answered (rule anchors missing): " + "; ".join(self.deferred))
+            self.viol = keep
         wall = time.time() - self.t0
         evdir = os.environ.get("VERIF_EVIDENCE_DIR") or os.path.join(VERIF, "evidence")
         os.makedirs(os.path.join(evdir, "violations"), exist_ok=True)
